@@ -843,7 +843,7 @@ def run_surface(prop, tier, seed, model=True):
                 violations.append((bad, why, sig))
     if prop == 'C14':
         rule = ('every (route, method) of the routing table plus unknown paths and undeclared methods x all 40 microversions, "latest", no header and out-of-range versions; '
-                'every one of the 71 versioned features probed at all 40 microversions; distinct non-trivial = all probes (each is a distinct table cell)')
+                'every one of the 77 versioned features probed at all 40 microversions; distinct non-trivial = all probes (each is a distinct table cell)')
     else:
         rule = ('every (route, method) x 7 caller classes under the default policy, and for every documented rule the overrides "@" (everyone) and "!" (nobody) on the '
                 'operations of that rule plus sampled other operations (thorough: all operations); each probe from a restored snapshot with a table dump afterwards; '
